@@ -292,7 +292,12 @@ pub trait Children {
 pub trait Lend<'a> {
     #[wrap_with_obj(ReadOnly)]
     type Lent: ReadOnly + 'a;
+    /// a mutably borrowed wrapped child bounded by the trait's lifetime (parked in the
+    /// container's temporary storage, which starts out uninitialised)
+    #[wrap_with_obj_mut(Basic)]
+    type LentMut: Basic + 'a;
     fn lend(&'a mut self, salt: u64) -> Self::Lent;
+    fn lend_mut(&'a mut self) -> &'a mut Self::LentMut;
 }
 
 /// What `Lend::lend` hands out: a view that forwards to the borrowed child.
@@ -967,6 +972,11 @@ macro_rules! implementor {
 
         impl<'a> Lend<'a> for $name {
             type Lent = LendView<'a>;
+            type LentMut = Solo;
+            fn lend_mut(&'a mut self) -> &'a mut Solo {
+                self.core.enter("lend_mut", 0, &[]);
+                self.mu()
+            }
             fn lend(&'a mut self, salt: u64) -> LendView<'a> {
                 self.core.enter("lend", salt, &[]);
                 self.core.mix(salt ^ 0x1E);
